@@ -84,4 +84,82 @@ theorem foldl_trainStep_none {τP τA : Type} (eng : Mat → Mat → Rat → Opt
   | nil => rfl
   | cons s L ih => simpa [trainStep] using ih
 
+/-! ### review R2: the table-driven step `trainStepRec` (what the driver op `advstep.fit` folds) -/
+
+/-- one more `train_step` on an optional model (`none` = the NaN model, which stays NaN) -/
+def stepOpt (eng : Mat → Mat → Rat → Option Mat) (α lrP lrA : Rat) (m : Option (Model Unit Unit)) (g : Grads) :
+    Option (Model Unit Unit) := m.bind (fun m => step eng α (sgd lrP) (sgd lrA) m g)
+
+/-- `trainStepRec` consumes exactly one recorded gradient triple per step and applies `step` (plain SGD) to it -/
+theorem trainStepRec_cons (eng : Mat → Mat → Rat → Option Mat) (α lrP lrA : Rat) (m : Option (Model Unit Unit))
+    (g : Grads) (rest : List Grads) (lo hi : Nat) :
+    trainStepRec eng α lrP lrA (m, g :: rest) lo hi = (stepOpt eng α lrP lrA m g, rest) := by
+  cases m <;> simp [trainStepRec, stepOpt]
+
+/-- folding `trainStepRec` over any list of scheduled steps = folding `step` over the first `steps.length` recorded
+    gradient triples, in order (the slice bounds are not looked at: the recorded gradients ARE those of the slice);
+    the unused records remain -/
+theorem partialFitSeq_trainStepRec (eng : Mat → Mat → Rat → Option Mat) (α lrP lrA : Rat) (steps : List Schedule.Step)
+    (gs : List Grads) (m0 : Option (Model Unit Unit)) (h : steps.length ≤ gs.length) :
+    Schedule.partialFitSeq (trainStepRec eng α lrP lrA) (m0, gs) steps =
+      ((gs.take steps.length).foldl (stepOpt eng α lrP lrA) m0, gs.drop steps.length) := by
+  unfold Schedule.partialFitSeq
+  induction steps generalizing gs m0 with
+  | nil => simp
+  | cons s steps ih =>
+    cases gs with
+    | nil => simp at h
+    | cons g rest =>
+      simp only [List.foldl_cons, trainStepRec_cons, List.length_cons, List.take_succ_cons, List.drop_succ_cons]
+      exact ih rest _ (by simpa using h)
+
+/-- ERROR BRANCH of the table: with fewer records than steps the result is the NaN model (`none`), never a silently
+    shorter training run -/
+theorem partialFitSeq_trainStepRec_exhausted (eng : Mat → Mat → Rat → Option Mat) (α lrP lrA : Rat)
+    (steps : List Schedule.Step) (gs : List Grads) (m0 : Option (Model Unit Unit)) (h : gs.length < steps.length) :
+    (Schedule.partialFitSeq (trainStepRec eng α lrP lrA) (m0, gs) steps).1 = none := by
+  unfold Schedule.partialFitSeq
+  induction steps generalizing gs m0 with
+  | nil => simp at h
+  | cons s steps ih =>
+    cases gs with
+    | nil =>
+      have hnone : ∀ (L : List Schedule.Step) (r : List Grads),
+          (L.foldl (fun st s => trainStepRec eng α lrP lrA st s.lo s.hi) (none, r)).1 = none := by
+        intro L
+        induction L with
+        | nil => intro r; rfl
+        | cons t L ihL =>
+          intro r
+          cases r with
+          | nil => simpa [trainStepRec] using ihL []
+          | cons g r => simpa [trainStepRec] using ihL r
+      cases m0 <;> simpa [trainStepRec] using hnone steps []
+    | cons g rest =>
+      simp only [List.foldl_cons, trainStepRec_cons]
+      exact ih rest _ (by simpa using h)
+
+/-- the whole step keeps the number of tensors of both players (no tensor is dropped by the `zip`s of the model)
+    whenever autograd delivers one gradient per tensor -/
+theorem step_lengths {τP τA : Type} (eng : Mat → Mat → Rat → Option Mat) (α : Rat) (optP : Opt τP) (optA : Opt τA)
+    (m m' : Model τP τA) (g : Grads) (hP : m.pred.state.length = m.pred.params.length)
+    (hA : m.adv.state.length = m.adv.params.length) (hgP : g.dWLP.length = m.pred.params.length)
+    (hgU : g.dULA.length = m.adv.params.length) (h : step eng α optP optA m g = some m') :
+    m'.pred.params.length = m.pred.params.length ∧ m'.pred.state.length = m.pred.params.length ∧
+    m'.adv.params.length = m.adv.params.length ∧ m'.adv.state.length = m.adv.params.length := by
+  unfold step at h
+  cases hc : combineAll eng α g.dWLP g.dWLA with
+  | none => simp [hc] at h
+  | some gs =>
+    simp only [hc, Option.some.injEq] at h
+    subst h
+    have hs := combineAll_spec eng α _ _ gs hc
+    have hl : gs.length = m.pred.params.length := by
+      have := hs.2.length_eq
+      simp only [List.length_zip] at this
+      omega
+    have h1 := applyOpt_length optP m.pred.params m.pred.state gs hP hl
+    have h2 := applyOpt_length optA m.adv.params m.adv.state g.dULA hA hgU
+    exact ⟨h1.1, h1.2, h2.1, h2.2⟩
+
 end AdvStep
